@@ -282,7 +282,19 @@ func genAddr(t *rapid.T, label string) []byte {
 
 // a related address: prefix / extension / differs in the length only / differs in the last byte
 func related(t *rapid.T, a []byte, label string) []byte {
-	switch rapid.IntRange(0, 4).Draw(t, label+"Rel") {
+	switch rapid.IntRange(0, 6).Draw(t, label+"Rel") {
+	case 5:
+		// b ends with the length-prefixed form of a: x || len(a) || a (keys are only prefix-free read from the left)
+		if len(a) < 200 {
+			x := rapid.SliceOfN(rapid.Byte(), 1, 11).Draw(t, label+"Pre")
+			return append(append(append([]byte{}, x...), byte(len(a))), a...)
+		}
+	case 6:
+		// b starts with a followed by something that looks like another length-prefixed address
+		if len(a) < 200 {
+			x := rapid.SliceOfN(rapid.Byte(), 1, 11).Draw(t, label+"Suf")
+			return append(append(append([]byte{}, a...), byte(len(x))), x...)
+		}
 	case 0:
 		if len(a) > 1 {
 			return append([]byte{}, a[:len(a)-1]...)
